@@ -715,6 +715,49 @@ func TestVerifC02(t *testing.T) {
 				}
 			}
 			o.Calls = append(o.Calls, w.edgeSlot(h, "getSlot"), w.edgeSlot(h, "getFirstAvailableBlock"))
+			// the same archived keys again, from eight clients at once: a request answers the same whoever else is being
+			// served (every concurrent answer is judged like the sequential ones)
+			{
+				type job func() rpcCall
+				var jobs []job
+				for _, i := range sub {
+					for _, bt := range w.eps[i].built.Blocks {
+						slot := bt.Spec.Slot
+						jobs = append(jobs, func() rpcCall { return w.grpcGetBlock(multi, slot) }, func() rpcCall { return w.jsonGetBlock(h, slot, "base64") })
+						for _, tt := range bt.Txs {
+							sg, id := tt.Sig, tt.Spec.SigID
+							jobs = append(jobs, func() rpcCall { return w.grpcGetTransaction(multi, sg, id) })
+						}
+					}
+				}
+				if len(jobs) > 400 {
+					jobs = jobs[:400]
+				}
+				res := make([][]rpcCall, 8)
+				var wg sync.WaitGroup
+				for g := 0; g < 8; g++ {
+					wg.Add(1)
+					go func(g int) {
+						defer wg.Done()
+						for k := g % 2; k < len(jobs); k += 2 {
+							res[g] = append(res[g], jobs[k]())
+						}
+					}(g)
+				}
+				wg.Wait()
+				bad := 0
+				for g := range res {
+					for _, c := range res[g] {
+						if c.Status != "ok" || !c.Txsame || !c.Metasame {
+							if bad < 20 {
+								c.Detail = "concurrent clients: " + c.Detail
+								o.Calls = append(o.Calls, c)
+							}
+							bad++
+						}
+					}
+				}
+			}
 			out.Emit(o)
 		}
 		w.close()
